@@ -1,6 +1,6 @@
 #!/usr/bin/env python3
 """Print the markdown table of DESIGN.md 13.4 from seeded/*/meta.json (not a registered check)."""
-import glob, json, os
+import glob, json, os, re
 VERIF = os.path.dirname(os.path.dirname(os.path.abspath(__file__)))
 print("| seed | change (from the sub-agent's description) | detected by | run and not detected by |")
 print("|---|---|---|---|")
@@ -11,8 +11,10 @@ for d in sorted(glob.glob(os.path.join(VERIF, "seeded", "*"))):
         lines = " ".join(r.get("lines", []))
         if r["exit"] == 1 and "VIOLATION" in lines:
             viol = [l for l in r["lines"] if l.startswith("VIOLATION")]
-            concrete = any("no-failing-input-found" not in l for l in viol) or "violation(s)" in lines and any(
-                int(x.split(" violation")[0].split()[-1]) > sum(1 for l in viol if "no-failing-input-found" in l) for x in [lines] if " violation(s)" in x)
+            nofail = sum(1 for l in viol if "no-failing-input-found" in l)
+            m2 = re.search(r"(\d+) violation\(s\)", lines)
+            total = int(m2.group(1)) if m2 else len(viol)
+            concrete = any("no-failing-input-found" not in l for l in viol) or total > nofail
             det.append("%s (%s)" % (pid, "concrete input" if concrete else "obligation/correspondence only"))
         else:
             miss.append(pid)
